@@ -52,12 +52,16 @@ PROPS = {
         "design": "DESIGN.md §3 C06",
     },
     "C07": {
+        "facts": True,
+        "lean_files": ["C07", "C07Code"],
         "engines": [DECODE, dict(CODEC, args=SMALL)],
         "text": "Partial. Proved (Lean 4, on the reflection + codec model): C07_reads_frame / C07_read_history_frame — read-only calls leave every field of the Go struct representation unchanged, nil-versus-empty included. Memory aliasing is not expressible in a value-semantic model: it is decided on the real code on every run — after every Unmarshal the input buffer is overwritten and the message re-read through the struct view; after every Marshal all byte slices of the message are overwritten in place and the returned bytes re-compared; the struct is deep-compared around the read-only call set.",
         "note": "partial: aliasing is Go memory behaviour, covered by the scribble oracles only (generator: bytes/string fields in singular, repeated, oneof and map positions, unknown fields at depth); the theorem covers the frame condition",
         "design": "DESIGN.md §3 C07",
     },
     "C11": {
+        "facts": True,
+        "lean_files": ["C11", "C11Code"],
         "engines": [RACE],
         "race": True,
         "text": "Partial. Proved (Lean 4): C11_reads_write_nothing, C11_read_history, C11_interleaving — in the model of the generated code read-only operations write nothing, so in every interleaving of any number of readers each reader observes exactly what it observes alone. The Go memory model is outside the model: the real code is run on every check under the race detector with N goroutines performing the read-only operation set in different orders on shared messages of every generated type (incl. embedded Any/Timestamp/Duration/FieldMask), observations compared with the sequential ones.",
